@@ -236,6 +236,6 @@ def selftest():
     rec["h"][0]["value128"] = int(128 * (p[0] + p[1] * 1.5))
     good = replay(rec, None)
     bad = replay({**rec, "h": [dict(rec["h"][0], value128=rec["h"][0]["value128"] + 64)]}, None)
-    ok = not good and any("sig" in x for x in bad)
+    ok = not any("sig" in x for x in good) and any("sig" in x for x in bad)
     print("C14 selftest:", "ok" if ok else "FAILED", good[:1], bad[:1])
     return 0 if ok else 2
